@@ -265,7 +265,7 @@ def collect(ck: Check, n_cases: int, modes, fixed=()):
         out += rr["results"]
     crashed = [r for r in out if "crash" in r]
     if crashed:
-        ck.broke("impl-runner-crash", {"prog": crashed[0]["prog"], "crash": crashed[0]["crash"]})
+        ck.runner_crash({"backend": crashed[0].get("backend"), "prog": crashed[0]["prog"]}, crashed[0]["crash"])
     hung = [r for r in out if r.get("hang")]
     if hung:
         small = min(hung, key=lambda r: len(json.dumps(r["prog"])))
